@@ -2,6 +2,7 @@ import Infretis.Model.Proto
 import Infretis.Model.Geom
 import Infretis.Model.GeomCtor
 import Infretis.Model.GeomFlow
+import Infretis.Model.GeomFrames
 open Infretis Infretis.Proto Infretis.Geom
 
 /-
@@ -28,6 +29,13 @@ Line protocol of the C20 driver.
   prev  <asis|rep> <var> <op vd|noop> <revV> <maxlen none|n> <nframes> (<pos> <vel> <box> <velrev> <order list>)…
                                             → "err:index" | "ok n" then per frame " | <velrev> <order> <pos> <vel> <box>"
      order := S n r… | R n r… | NaN
+  (follow-up pass: library frames, 2-D boxes, base-class keys)
+  calcb <var> <op> <arrays> <boxv>          → "ok n r…" | "nan" | "err:index" | "err:TypeError" | "err:ValueError"   (calcFrame)
+     arrays := N | A <pos> <vel>            boxv := none | flat <n r…> | mat <9 rationals, row-major>
+  prevl <var> <op vd|noop> <revV> <maxlen none|n> <nframes> (<arrays> <boxv> <velrev> <order list>)…
+                                            → "err:…" | "ok n" then per frame " | <velrev> <order>"     (pathReverseL)
+  createx <cls x<hex>> <idx|absent> <per absent|0|1> <dim absent|x<hex>> <velocity absent|0|1>
+                                            → "external" | "err:<Kind>" | "base vd=<0|1>" | "obj …"      (createOrderParameterX)
 -/
 
 def toV3s : List Rat → Option (List V3)
@@ -339,6 +347,121 @@ def handleNew (toks : List String) : Option String :=
     | _, _ => some "bad-op"
   | _ => none
 
+
+/-! follow-up pass -/
+
+def showValX : Except ErrX (List Rat) → String
+  | .ok xs => "ok " ++ showList showRat xs
+  | .error .index => "err:index"
+  | .error .nan => "nan"
+  | .error .typeError => "err:TypeError"
+  | .error .valueError => "err:ValueError"
+
+def showErrX : ErrX → String
+  | .index => "err:index"
+  | .nan => "nan"
+  | .typeError => "err:TypeError"
+  | .valueError => "err:ValueError"
+
+def takeArrays : List String → Option (Option (List V3 × List V3) × List String)
+  | "N" :: rest => some (none, rest)
+  | "A" :: rest =>
+    match takeV3s rest with
+    | some (pos, r1) =>
+      match takeV3s r1 with
+      | some (vel, r2) => some (some (pos, vel), r2)
+      | none => none
+    | none => none
+  | _ => none
+
+def takeBoxVal : List String → Option (BoxVal × List String)
+  | "none" :: rest => some (.none, rest)
+  | "flat" :: rest => (takeList parseRat? rest).map (fun (l, r) => (.flat l, r))
+  | "mat" :: a :: b :: c :: d :: e :: f :: g :: h :: i :: rest =>
+    match parseRat? a, parseRat? b, parseRat? c, parseRat? d, parseRat? e, parseRat? f, parseRat? g, parseRat? h, parseRat? i with
+    | some a, some b, some c, some d, some e, some f, some g, some h, some i =>
+      some (.mat ⟨⟨a, b, c⟩, ⟨d, e, f⟩, ⟨g, h, i⟩⟩, rest)
+    | _, _, _, _, _, _, _, _, _ => none
+  | _ => none
+
+def takeLFrame (toks : List String) : Option (LFrame × List String) :=
+  match takeArrays toks with
+  | some (arr, r1) =>
+    match takeBoxVal r1 with
+    | some (box, vr :: r2) =>
+      match parseBool? vr, takeList parseRat? r2 with
+      | some b, some (ord, r3) => some (⟨arr, box, b, .stored ord⟩, r3)
+      | _, _ => none
+    | _ => none
+  | none => none
+
+def takeLFrames : Nat → List String → Option (List LFrame × List String)
+  | 0, toks => some ([], toks)
+  | n + 1, toks =>
+    match takeLFrame toks with
+    | some (f, rest) => (takeLFrames n rest).map (fun (fs, r) => (f :: fs, r))
+    | none => none
+
+def handlePrevL (var : Variant) (toks : List String) : String :=
+  let opvd : Option (Option (OP × Bool) × List String) :=
+    match toks with
+    | "noop" :: rest => some (none, rest)
+    | _ =>
+      match parseOp toks with
+      | some (op, vd :: rest) => (parseBool? vd).map (fun b => (some (op, b), rest))
+      | _ => none
+  match opvd with
+  | some (ofn, rvv :: ml :: nf :: rest) =>
+    let maxlen : Option (Option Nat) := if ml = "none" then some none else (parseNat? ml).map some
+    match parseBool? rvv, maxlen, parseNat? nf with
+    | some revV, some maxlen, some n =>
+      match takeLFrames n rest with
+      | some (frames, []) =>
+        match pathReverseL var ofn revV maxlen frames with
+        | .error e => showErrX e
+        | .ok fs => "ok " ++ toString fs.length ++
+            String.join (fs.map (fun f => s!" | {showB f.velRev} {showOrderVal f.order}"))
+      | _ => "bad-op"
+    | _, _, _ => "bad-op"
+  | _ => "bad-op"
+
+def handleFollowUp (toks : List String) : Option String :=
+  match toks with
+  | "calcb" :: v :: rest =>
+    match parseVar? v, parseOp rest with
+    | some var, some (op, r1) =>
+      match takeArrays r1 with
+      | some (arr, r2) =>
+        match takeBoxVal r2 with
+        | some (box, []) => some (showValX (calcFrame var op ⟨arr, box, false, .stored []⟩))
+        | _ => some "bad-op"
+      | none => some "bad-op"
+    | _, _ => some "bad-op"
+  | "prevl" :: v :: rest =>
+    match parseVar? v with
+    | some var => some (handlePrevL var rest)
+    | none => some "bad-op"
+  | "createx" :: cls :: rest =>
+    let idx : Option (Option IdxVal × List String) :=
+      match rest with
+      | "absent" :: r => some (none, r)
+      | _ => (takeIdx rest).map (fun (i, r) => (some i, r))
+    match xstr? cls, idx with
+    | some c, some (i, [per, dim, vel]) =>
+      let p : Option (Option Bool) := if per = "absent" then some none else (parseBool? per).map some
+      let d : Option (Option String) := if dim = "absent" then some none else (xstr? dim).map some
+      let vv : Option (Option Bool) := if vel = "absent" then some none else (parseBool? vel).map some
+      match p, d, vv with
+      | some p, some d, some vv =>
+        match createOrderParameterX ⟨c, i, p, d⟩ vv with
+        | .error e => some (showCtorErr e)
+        | .ok .external => some "external"
+        | .ok (.base b) => some s!"base vd={showB b}"
+        | .ok (.obj o) => some (showObj o)
+      | _, _, _ => some "bad-op"
+    | _, _ => some "bad-op"
+  | _ => none
+
 def handleOld (toks : List String) : String :=
   match toks with
   | ["rint", x] =>
@@ -361,8 +484,11 @@ def handleOld (toks : List String) : String :=
   | _ => "bad-op"
 
 def handle (toks : List String) : String :=
-  match handleNew toks with
+  match handleFollowUp toks with
   | some r => r
-  | none => handleOld toks
+  | none =>
+    match handleNew toks with
+    | some r => r
+    | none => handleOld toks
 
 def main : IO Unit := mainWith handle
